@@ -24,6 +24,15 @@ LINE_CONSUMERS = ('skip_line', 'eval_const_expr', 'read_include_filename', 'read
 LINE_PASSERS = ('skip_cond_incl', 'include_file')
 
 
+# minimum number of distinct obligations per rule, confirmed by hand on the pinned tree (below: exit 2)
+FLOORS = {'R10.1': 15, 'R10.2': 85, 'R10.3': 14, 'R10.4': 40, 'R10.5': 10, 'R10.6': 45, 'R10.7': 3, 'R10.8': 12}
+
+
+def _declare_rules(rep):
+    for r in sorted(FLOORS):
+        rep.rule(r, '(see DESIGN.md C10 %s)' % r, floor=FLOORS[r])
+
+
 def run(P, rep, tier):
     u = P.unit(U)
     for f in ('skip_line', 'copy_line', 'skip_cond_incl', 'skip_cond_incl2', 'detect_include_guard', 'preprocess2', 'preprocess',
@@ -132,7 +141,7 @@ def _check_eol_scan(it, ctx, rep, rule, fn, first, result, where, seen):
 
 def r101(P, u, T, rep):
     rep.rule('R10.1', 'end-of-line scans (skip_line, copy_line, the #pragma arm) stop exactly at the first token that begins a line, and every '
-             'directive arm of the dispatcher leaves the stream at a line start', floor=12)
+             'directive arm of the dispatcher leaves the stream at a line start', floor=FLOORS['R10.1'])
     # skip_line
     it = PPInterp(P, u, {'opaque': ['warn_tok'], 'loop_limit': 3})
     fn = 'skip_line'
@@ -275,10 +284,10 @@ def _scan_cfg(nested):
             'cut': {nested: cut_tok(nested)}, 'lazy_field': hook, 'loop_limit': 12}
 
 
-def _scanner_class(P, u, T, fn, d):
+def _scanner_class(P, u, T, fn, d, variant=None):
     """behaviour of skip_cond_incl / skip_cond_incl2 on `# d M` / `# endif z` / `x y`"""
     it = PPInterp(P, u, _scan_cfg('skip_cond_incl2'))
-    res = it.explore(fn, directive_scenario(T, d, second='endif'), max_paths=200)
+    res = it.explore(fn, directive_scenario(T, d, second='endif', variant=variant), max_paths=200)
     cls = set()
     info = []
     for ctx, out in res:
@@ -308,11 +317,15 @@ def _scanner_class(P, u, T, fn, d):
     return cls, info
 
 
-def _guard_scenario(T, d):
+def _guard_scenario(T, d, variant=None):
     def mk(ctx):
         specs = T.line('g', [('#', 'TK_PUNCT'), ('ifndef', 'TK_IDENT'), ('G', 'TK_IDENT')])
         specs += T.line('h', [('#', 'TK_PUNCT'), ('define', 'TK_IDENT'), ('G', 'TK_IDENT')])
         specs += T.line('a', [('#', 'TK_PUNCT'), (d, 'TK_IDENT'), ('M', 'TK_IDENT')])
+        if variant == 'word':
+            specs[6] = ('a0:w', 'w', 'TK_IDENT', True)
+        elif variant == 'midline':
+            specs[6] = ('a0:#', '#', 'TK_PUNCT', False)
         specs += T.line('e', [('#', 'TK_PUNCT'), ('endif', 'TK_IDENT')])
         specs += [('eof', '', 'TK_EOF', True)]
         ts = T.chain(specs)
@@ -322,9 +335,9 @@ def _guard_scenario(T, d):
     return mk
 
 
-def _guard_class(P, u, T, d):
+def _guard_class(P, u, T, d, variant=None):
     it = PPInterp(P, u, _scan_cfg('skip_cond_incl'))
-    res = it.explore('detect_include_guard', _guard_scenario(T, d), max_paths=200)
+    res = it.explore('detect_include_guard', _guard_scenario(T, d, variant), max_paths=200)
     cls = set()
     for ctx, out in res:
         o = outcome(out)
@@ -365,7 +378,7 @@ def _dispatch_class(it, res):
 
 def r102(P, u, T, rep, dres):
     rep.rule('R10.2', 'the opener set {if, ifdef, ifndef} and the closer set {elif, else, endif} are recognised identically, on the token after `#`, '
-             'by skip_cond_incl, skip_cond_incl2, detect_include_guard and the dispatcher preprocess2; no other word is treated as one', floor=40)
+             'by skip_cond_incl, skip_cond_incl2, detect_include_guard and the dispatcher preprocess2; no other word is treated as one', floor=FLOORS['R10.2'])
     lits = set()
     for f in ('skip_cond_incl', 'skip_cond_incl2', 'detect_include_guard', 'preprocess2'):
         lits |= string_lits_compared(u.fn(f))
@@ -409,8 +422,42 @@ def r102(P, u, T, rep, dres):
             if d in OPENERS and not ok:
                 what += ' (nested conditionals are then mis-nested: their #else/#endif are taken for those of the enclosing group)'
             rep.ob('R10.2', '%s:%s:%s' % (U, fn, construct), ok, what, where=where, facts={'behaviours': sorted(cls)})
+    # the same words where they are not directives: after a token that is not `#`, or after a `#` in the middle of a line
+    vsay = {'word': 'the word `%s` after an ordinary token', 'midline': '`# %s` in the middle of a line (not a directive)'}
+    for fn in ('skip_cond_incl2', 'skip_cond_incl', 'detect_include_guard'):
+        where = '%s:%d' % (U, u.fn(fn).line)
+        for variant in ('word', 'midline'):
+            for d in COND:
+                try:
+                    if fn == 'detect_include_guard':
+                        cls = _guard_class(P, u, T, d, variant)
+                    else:
+                        cls, _ = _scanner_class(P, u, T, fn, d, variant)
+                except Unsupported as e:
+                    rep.undecided('R10.2', '%s:%s:%s/%s' % (U, fn, variant, d), 'cannot interpret %s: %s' % (fn, e))
+                    continue
+                if not cls:
+                    rep.undecided('R10.2', '%s:%s:%s/%s' % (U, fn, variant, d), '%s has no path the analysis can follow' % fn)
+                    continue
+                ok = cls == {'pass'}
+                got = sorted(cls)[0]
+                rep.ob('R10.2', '%s:%s:%s/%s' % (U, fn, 'non-directive-%s-passed' % variant if ok else 'non-directive-%s-taken-for-directive' % variant, d), ok,
+                       '%s %s: %s; only `#` at the beginning of a line introduces a directive' % (
+                           fn, says.get(got, got[4:] if got.startswith('odd:') else got), vsay[variant] % d), where=where, facts={'behaviours': sorted(cls)})
     # dispatcher
     fnline = u.fn('preprocess2').line
+    for d in COND:
+        try:
+            it, res = explore_directive(P, u, T, d, variant='midline')
+        except Unsupported as e:
+            rep.undecided('R10.2', '%s:preprocess2:midline/%s' % (U, d), 'cannot interpret the dispatcher: %s' % e)
+            continue
+        c = _dispatch_class(it, res)
+        errs = [o for ctx, o in res if outcome(o)[0] == 'error']
+        ok = c == 'other' and not errs
+        rep.ob('R10.2', '%s:preprocess2:%s/%s' % (U, 'non-directive-midline-passed' if ok else 'non-directive-midline-taken-for-directive', d), ok,
+               'the dispatcher treats `# %s` in the middle of a line as a directive; only `#` at the beginning of a line introduces one' % d,
+               where='%s:%d' % (U, fnline))
     for d in universe:
         if d not in dres:
             continue
@@ -512,7 +559,7 @@ _ASPECTS = {
 def r104(P, u, T, rep, dres):
     rep.rule('R10.4', 'conditional stack discipline (C11 6.10.1): openers push exactly one entry whose taken flag is the truth of the condition and skip iff it is false; '
              '#elif/#else are diagnosed on an empty stack or after #else, #elif evaluates its expression only if no group was taken yet and latches the flag, '
-             '#else skips iff a group was taken, #endif pops one entry after a null check; preprocess diagnoses a non-empty stack at EOF', floor=30)
+             '#else skips iff a group was taken, #endif pops one entry after a null check; preprocess diagnoses a non-empty stack at EOF', floor=FLOORS['R10.4'])
     E = u.enums
     fnline = u.fn('preprocess2').line
     off = _expr_offset(P, u, T)
@@ -529,6 +576,11 @@ def r104(P, u, T, rep, dres):
             line = _arm_line(ctx, line)
             evals = calls(ctx, 'eval_const_expr')
             finds = calls(ctx, 'find_macro')
+            nd = [e for e in ctx.events if e[0] == 'nullderef']
+            if nd and d in CLOSERS:
+                fails.setdefault('diagnoses-stray', ('`#%s` with no open conditional: `%s` is read through the empty (NULL) conditional stack before the stack is tested '
+                                                     '(crash instead of the stray-#%s diagnostic)' % (d, nd[0][1], d), 'empty-stack', ctx.trail))
+                covered.add('empty-stack')
             cells = [ctx.ci_cell, ctx.ci_init['included'], ctx.ci_init['ctx']] if hasattr(ctx, 'ci_cell') else []
             if not cells:
                 # the arm never looked at the stack: it behaves the same in every state
@@ -563,6 +615,9 @@ def r104(P, u, T, rep, dres):
             aspects += ['marks-else']
         for a in aspects:
             f = fails.get(a)
+            if f is None and ('?' + a) in fails:
+                rep.undecided('R10.4', '%s:preprocess2:%s/%s' % (U, d, a), fails['?' + a][0], where='%s:%d' % (U, line))
+                continue
             rep.ob('R10.4', '%s:preprocess2:%s/%s' % (U, d, a), f is None, f[0] if f else '', where='%s:%d' % (U, line),
                    facts={'state': f[1], 'path': f[2]} if f else None)
     _r104_push(P, u, rep)
@@ -615,7 +670,10 @@ def _judge(it, ctx, o, d, st, E, fails, off, evals, finds):
     x = _expected(d, st, E)
     skey = _stkey(d, st, E)
 
-    def fail(aspect, msg):
+    def fail(aspect, msg, unknown=False):
+        if unknown:
+            fails.setdefault('?' + aspect, ('`#%s` %s: %s' % (d, _describe(d, skey), msg), skey, ctx.trail))
+            return
         fails.setdefault(aspect, ('`#%s` %s: %s' % (d, _describe(d, skey), msg), skey, ctx.trail))
     is_err = o[0] == 'error'
     if x['error'] != is_err:
@@ -638,7 +696,9 @@ def _judge(it, ctx, o, d, st, E, fails, off, evals, finds):
             fail('pushes-once', 'push_cond_incl is called %d times; every opener must push exactly one entry, otherwise the matching #endif pops the wrong conditional' % len(pushes))
         else:
             inc = truth_in(it, ctx, pushes[0][2][1]) if len(pushes[0][2]) > 1 else None
-            if inc is None or inc != x['push']:
+            if inc is None:
+                fail('taken-flag', 'the analysis cannot tell which taken flag the new entry gets', unknown=True)
+            elif inc != x['push']:
                 fail('taken-flag', 'the new entry is marked taken=%s, the condition is %s: a later #elif/#else would select the wrong group' % (inc, x['push']))
             ok = isinstance(g, Obj) and g is not getattr(ctx, 'ci', None)
             if not ok:
@@ -685,13 +745,17 @@ def _judge(it, ctx, o, d, st, E, fails, off, evals, finds):
             fail('skips-group', 'the group skipper starts at the `#` of the directive itself')
     if x['inc_after'] is not None:
         v = truth_in(it, ctx, ctx.ci.fields.get('included'))
-        if v is None or v != x['inc_after']:
+        if v is None:
+            fail('latches-taken', 'the analysis cannot tell the taken flag after the directive', unknown=True)
+        elif v != x['inc_after']:
             fail('latches-taken', 'afterwards the entry says taken=%s, it must say %s: %s' % (
                 v, x['inc_after'], 'a later #elif/#else group would be processed as well' if x['inc_after'] else 'no later group could be selected'))
     if x['else_after'] is not None:
         c = settle(it, ctx.ci.fields.get('ctx'))
         is_else = (c == E['IN_ELSE']) if isinstance(c, int) else None
-        if is_else is None or is_else != x['else_after']:
+        if is_else is None:
+            fail('marks-else', 'the analysis cannot tell the part marker after the directive', unknown=True)
+        elif is_else != x['else_after']:
             fail('marks-else', ('#else does not mark the entry as being in its else part: a second #else or an #elif after #else is not diagnosed'
                                 if x['else_after'] else '#elif marks the entry as being in its else part: a following #else/#elif is wrongly diagnosed'))
 
@@ -842,7 +906,7 @@ def _macro_table(u):
 def r103(P, u, T, rep):
     rep.rule('R10.3', 're-inclusion shortcuts are transparent: include_file returns without reading the file only for a `#pragma once` file or for a file '
              'recognised as guarded whose guard macro is defined right now; the guard memo is keyed by the path it is looked up with; '
-             'detect_include_guard answers only after checking `#ifndef X`, `#define X` and a final `#endif` followed by end of file', floor=10)
+             'detect_include_guard answers only after checking `#ifndef X`, `#define X` and a final `#endif` followed by end of file', floor=FLOORS['R10.3'])
     fn = 'include_file'
     where = '%s:%d' % (U, u.fn(fn).line)
     macros = _macro_table(u)
@@ -1041,7 +1105,7 @@ def _r103_detect(P, u, T, rep):
 # ------------------------------------------------------------------------------------------------ R10.5
 def r105(P, u, T, rep):
     rep.rule('R10.5', '#if operand preparation order in eval_const_expr: `defined` rewriting, then macro expansion, then remaining identifiers to 0, '
-             'then pp-number conversion, then const_expr, then the trailing-token diagnostic; `defined X`/`defined(X)` becomes 1 iff X is a macro', floor=9)
+             'then pp-number conversion, then const_expr, then the trailing-token diagnostic; `defined X`/`defined(X)` becomes 1 iff X is a macro', floor=FLOORS['R10.5'])
     fn = 'eval_const_expr'
     where = '%s:%d' % (U, u.fn(fn).line)
     E = u.enums
@@ -1232,7 +1296,7 @@ def _r105_defined(P, u, T, rep):
 # ------------------------------------------------------------------------------------------------ R10.7
 def r107(P, u, rep):
     rep.rule('R10.7', 'include search keeps its side effects: a memoised lookup (function with a static cache) writes on a cache hit every global it writes when it '
-             'computes the answer; a directory search that finds the file at index i leaves the #include_next cursor at i + 1', floor=3)
+             'computes the answer; a directory search that finds the file at index i leaves the #include_next cursor at i + 1', floor=FLOORS['R10.7'])
     scal = {}
     for name, d in u.globals.items():
         t = (d.dtype or d.type or '').strip()
@@ -1252,7 +1316,8 @@ def r107(P, u, rep):
     gl['include_paths'] = lambda ctx: Obj('StringArray', lazy=True, label='include_paths')
     cands = [f for f, fd in u.functions.items() if any(v.kind == 'VarDecl' and v.d.get('storageClass') == 'static' and 'HashMap' in (v.type or '') for v in fd.walk())]
     if 'search_include_paths' not in cands:
-        rep.undecided('R10.7', '%s:search_include_paths:no-cache' % U, 'search_include_paths has no static cache any more; the memoisation rule has nothing to decide')
+        # not memoised (any more): every lookup computes its answer, nothing can be skipped
+        rep.ob('R10.7', '%s:search_include_paths:not-memoised' % U, True, '', where='%s:%d' % (U, u.fn('search_include_paths').line))
     for fn in cands:
         where = '%s:%d' % (U, u.fn(fn).line)
         cfg = {'cut': {'hashmap_get': _h_map('hashmap_get', _nullable('entry')), 'hashmap_put': _h_map('hashmap_put', None),
@@ -1374,7 +1439,7 @@ def _ev_result(ctx, v):
 def r108(P, u, T, rep, dres):
     rep.rule('R10.8', 'a quoted #include probes the directory of the including file before the include path, an angle-bracket one does not; #include_next continues the '
              'previous search; `#pragma once` is keyed by the path string include_file is later called with; -include files are tokenised in option order in '
-             'front of the main file; -D/-U act in command-line order', floor=8)
+             'front of the main file; -D/-U act in command-line order', floor=FLOORS['R10.8'])
     fnline = u.fn('preprocess2').line
     if 'include' not in dres or 'include_next' not in dres:
         rep.undecided('R10.8', '%s:preprocess2:include-arms' % U, 'the #include / #include_next arms of the dispatcher could not be followed')
@@ -1421,7 +1486,11 @@ def r108(P, u, T, rep, dres):
             elif dq == [1] and not absolute:
                 seen.add('quoted')
                 if local is None:
-                    fails.setdefault('quoted-probes-includer-directory', ('a quoted #include of a relative name does not first look in the directory of the including file', ctx.trail))
+                    early = [pr for pr in probes if not search or ctx.events.index(pr) < ctx.events.index(search[0])]
+                    if early:
+                        fails.setdefault('?quoted-probes-includer-directory', ('a quoted #include probes a path the analysis cannot relate to the directory of the including file', ctx.trail))
+                    else:
+                        fails.setdefault('quoted-probes-includer-directory', ('a quoted #include of a relative name does not first look in the directory of the including file', ctx.trail))
                     continue
                 if search and ctx.events.index(search[0]) < ctx.events.index(local):
                     fails.setdefault('quoted-probes-includer-directory', ('the include path is searched before the directory of the including file', ctx.trail))
@@ -1444,6 +1513,9 @@ def r108(P, u, T, rep, dres):
         for k in ('reads-one-filename', 'quoted-probes-includer-directory', 'quoted-prefers-includer-directory', 'angle-skips-includer-directory',
                   'falls-back-to-include-path', 'rest-follows-the-file'):
             f = fails.get(k)
+            if f is None and ('?' + k) in fails:
+                rep.undecided('R10.8', '%s:preprocess2:include/%s' % (U, k), fails['?' + k][0], where='%s:%d' % (U, line))
+                continue
             rep.ob('R10.8', '%s:preprocess2:include/%s' % (U, k), f is None, f[0] if f else '', where='%s:%d' % (U, line), facts={'path': f[1]} if f else None)
         # include_next
         it, res = dres['include_next']
@@ -1469,6 +1541,7 @@ def r108(P, u, T, rep, dres):
             f = fails.get('falls-back-to-include-path')
             rep.ob('R10.8', '%s:preprocess2:include_next/continues-the-search' % U, f is None, f[0] if f else '', where='%s:%d' % (U, line), facts={'path': f[1]} if f else None)
     _r108_once(P, u, T, rep)
+    _r108_filename(P, u, T, rep)
     _r108_cc1(P, rep)
 
 
@@ -1490,6 +1563,64 @@ def _check_fallback(it, ctx, fails, search, fname, path, callee):
         fails.setdefault('falls-back-to-include-path', ('the path found by %s is not the file that is included' % callee, ctx.trail))
     if found is False and path is not fname:
         fails.setdefault('falls-back-to-include-path', ('a name that is not found on the include path is not handed on as given (for the diagnostic)', ctx.trail))
+
+
+def _r108_filename(P, u, T, rep):
+    """read_include_filename: `"name"` is the quoted form, `<name>` is not; the rest of the line follows the closing delimiter"""
+    fn = 'read_include_filename'
+    if fn not in u.functions:
+        rep.undecided('R10.8', '%s:%s:vanished' % (U, fn), 'read_include_filename vanished')
+        return
+    where = '%s:%d' % (U, u.fn(fn).line)
+    forms = {
+        'quoted': ([('"foo.h"', 'TK_STR')], 1),
+        'angle': ([('<', 'TK_PUNCT'), ('foo', 'TK_IDENT'), ('.', 'TK_PUNCT'), ('h', 'TK_IDENT'), ('>', 'TK_PUNCT')], 5),
+    }
+    for form, (words, after) in forms.items():
+        it = PPInterp(P, u, {'models': {'equal': m_equal}, 'cut': {'skip_line': cut_tok('skip_line'), 'join_tokens': None, 'strndup': None,
+                                                                   'preprocess2': cut_tok('preprocess2'), 'copy_line': cut_tok('copy_line', rest_arg=0, tok_arg=1)},
+                             'lazy_field': hook, 'loop_limit': 8})
+
+        def mk(ctx, words=words):
+            specs = T.line('f', words, first_bol=False) + T.line('b', [('x', 'TK_IDENT'), ('y', 'TK_IDENT')])
+            ts = T.chain(specs)
+            ctx.toks = ts
+            ctx.tokidx = {id(t): i for i, t in enumerate(ts)}
+            ctx.rest = _ValPlace(None)
+            ctx.dq = _ValPlace(None)
+            return [_Ref(ctx.rest), ts[0], _Ref(ctx.dq)]
+        bad = None
+        n = 0
+        for ctx, out in it.explore(fn, mk, max_paths=200):
+            o = outcome(out)
+            if o[0] != 'ret':
+                bad = bad or ('the well-formed %s form is rejected (%s)' % (form, o[1]), ctx.trail)
+                continue
+            n += 1
+            dq = truth_in(it, ctx, ctx.dq.v) if ctx.dq.v is not None else None
+            if dq is None or dq != (form == 'quoted'):
+                bad = bad or ('the %s form is reported as %s: %s' % (form, 'quoted' if dq else ('not quoted' if dq is False else 'undetermined'),
+                              'a quoted #include would not look next to the including file' if form == 'quoted' else 'an angle-bracket #include would look next to the including file'), ctx.trail)
+            sk = calls(ctx, 'skip_line')
+            r = settle(it, ctx.rest.v)
+            if len(sk) != 1 or idx_of(ctx, sk[0][2][0] if sk[0][2] else None) != after or r is not sk[0][4]:
+                bad = bad or ('the rest of the line is not taken from the token after the closing delimiter (extra tokens would be kept or the next line lost)', ctx.trail)
+            if form == 'angle':
+                j = calls(ctx, 'join_tokens')
+                if len(j) != 1 or len(j[0][2]) != 2 or idx_of(ctx, j[0][2][0]) != 1 or idx_of(ctx, j[0][2][1]) != 4 or o[1] is not j[0][4]:
+                    bad = bad or ('the name of an angle-bracket include is not the spelling of the tokens between `<` and `>`', ctx.trail)
+            else:
+                sd = calls(ctx, 'strndup')
+                ok = len(sd) == 1 and len(sd[0][2]) == 2 and o[1] is sd[0][4]
+                if ok:
+                    t0 = ctx.toks[0]
+                    ok = _lin_diff(sd[0][2][0], t0.fields.get('loc')) == 1 and _lin_diff(sd[0][2][1], t0.fields.get('len')) == -2
+                if not ok:
+                    bad = bad or ('the name of a quoted include is not the spelling of the string token without its two quotes', ctx.trail)
+        if n == 0 and bad is None:
+            rep.undecided('R10.8', '%s:%s:%s-form' % (U, fn, form), 'no returning path of read_include_filename for the %s form' % form)
+            continue
+        rep.ob('R10.8', '%s:%s:%s-form' % (U, fn, form), bad is None, bad[0] if bad else '', where=where, facts={'path': bad[1]} if bad else None)
 
 
 def _r108_once(P, u, T, rep):
@@ -1679,7 +1810,7 @@ def _argv(words):
 
 def r106(P, rep):
     rep.rule('R10.6', 'search order and option plumbing: include_paths is filled -I (argv order), then the system directories, then -idirafter; every option in '
-             'take_arg\'s table has a handler that takes the next argument as its value, and every handler that takes the next argument is in the table', floor=16)
+             'take_arg\'s table has a handler that takes the next argument as its value, and every handler that takes the next argument is in the table', floor=FLOORS['R10.6'])
     mu = P.unit('main.c')
     for f in ('parse_args', 'take_arg', 'main', 'add_default_include_paths'):
         if f not in mu.functions:
@@ -1722,8 +1853,8 @@ def r106(P, rep):
         if out[0] != 'ret':
             # the option ends the run (--help, -hashmap-test) or rejects: not a value-taking option in this scenario
             if in_table:
-                rep.ob('R10.6', 'main.c:parse_args:separate-argument-not-consumed/%s' % o, False,
-                       '`%s %s in.c`: the option is in take_arg\'s table (the next argument is reserved for it) but the command line is rejected (%s)' % (o, VAL, out[1]), where=where)
+                rep.undecided('R10.6', 'main.c:parse_args:option/%s' % o,
+                              '`%s %s in.c`: the option is in take_arg\'s table but this command line is rejected (%s); cannot tell whether the value is consumed' % (o, VAL, out[1]))
             continue
         pushes = [e for e in ctx.events if e[0] == 'push']
         inputs = [e[2] for e in pushes if e[1] == '&input_paths']
@@ -1757,7 +1888,7 @@ def _r106_order(P, mu, rep):
 
     def h_cc1(it, ctx, n, args):
         raise NoReturn(RESUME, [None], n.line)
-    words = ['chibicc', '-cc1', '-IA', '-idirafter', 'B', '-cc1-input', 'in.c', '-IC', 'x.c']
+    words = ['chibicc', '-cc1', '-IA', '-idirafter', 'B', '-IC', 'x.c']
     it = PPInterp(P, mu, _main_cfg({'cc1': h_cc1}, mu=mu))
     try:
         res = it.explore('main', lambda ctx: _argv(words), max_paths=50)
